@@ -223,6 +223,27 @@ namespace embedded_pairing::wkdibe {
         qualified.a1.copy(sk.a1);
     }
 
+    /*
+     * Sets diff to (a - b) mod r. Attribute ids are arbitrary 256-bit values,
+     * not necessarily reduced modulo the group order, so they are reduced
+     * before subtracting.
+     */
+    static void subtract_ids(Scalar& diff, const ID& a, const ID& b) {
+        Scalar ra;
+        Scalar rb;
+        ra.copy(a);
+        rb.copy(b);
+        while (Scalar::compare(ra, group_order) != -1) {
+            ra.subtract(ra, group_order);
+        }
+        while (Scalar::compare(rb, group_order) != -1) {
+            rb.subtract(rb, group_order);
+        }
+        if (diff.subtract(ra, rb)) {
+            diff.add(diff, group_order);
+        }
+    }
+
     void adjust_nondelegable(SecretKey& sk, const SecretKey& parent, const AttributeList& from, const AttributeList& to) {
         G1 temp;
         Scalar diff;
@@ -251,14 +272,12 @@ namespace embedded_pairing::wkdibe {
 
             if (sub_from && add_to) {
                 if (!ID::equal(from.attrs[j].id, to.attrs[k].id)) {
-                    if (diff.subtract(to.attrs[k].id, from.attrs[j].id)) {
-                        diff.add(diff, group_order);
-                    }
+                    subtract_ids(diff, to.attrs[k].id, from.attrs[j].id);
                     temp.multiply(parent.b[i].hexp, diff);
                     sk.a0.add(sk.a0, temp);
                 }
             } else if (sub_from) {
-                diff.subtract(group_order, from.attrs[j].id);
+                subtract_ids(diff, ID::zero, from.attrs[j].id);
                 temp.multiply(parent.b[i].hexp, diff);
                 sk.a0.add(sk.a0, temp);
             } else if (add_to) {
@@ -297,16 +316,14 @@ namespace embedded_pairing::wkdibe {
             const Attribute& to_attr = to.attrs[j];
             if (from_attr.idx == to_attr.idx) {
                 if (!ID::equal(from_attr.id, to_attr.id)) {
-                    if (diff.subtract(to_attr.id, from_attr.id)) {
-                        diff.add(diff, group_order);
-                    }
+                    subtract_ids(diff, to_attr.id, from_attr.id);
                     temp.multiply(params.h[to_attr.idx], diff);
                     precomputed.prodexp.add(precomputed.prodexp, temp);
                 }
                 i++;
                 j++;
             } else if (from_attr.idx < to_attr.idx) {
-                diff.subtract(group_order, from_attr.id);
+                subtract_ids(diff, ID::zero, from_attr.id);
                 temp.multiply(params.h[from_attr.idx], diff);
                 precomputed.prodexp.add(precomputed.prodexp, temp);
                 i++;
@@ -318,7 +335,7 @@ namespace embedded_pairing::wkdibe {
         }
         while (i != from.length) {
             const Attribute& from_attr = from.attrs[i];
-            diff.subtract(group_order, from_attr.id);
+            subtract_ids(diff, ID::zero, from_attr.id);
             temp.multiply(params.h[from_attr.idx], diff);
             precomputed.prodexp.add(precomputed.prodexp, temp);
             i++;
